@@ -247,9 +247,12 @@ DomD(v, a, b) ==
                    \* -1 in the shape denotes half the size of the source vector (which must have an even size >= 2)
                    \/ IsList(a) /\ Len(a.v) = 2 /\ AllInts(a.v) /\ (\A k \in 1..2 : a.v[k].v \in {-1, 1, 2, 3})
                       /\ (\E k \in 1..2 : a.v[k].v = -1) /\ FlatAtoms(b) /\ Len(b.v) >= 2 /\ Len(b.v) % 2 = 0
-    [] v = ":=" -> IsList(a) /\ Len(a.v) >= 1 /\ IsList(b) /\ Len(b.v) >= 2 /\ AllInts(Tail(b.v)) /\
-                   (\A k \in 2..Len(b.v) : b.v[k].v \in 0..(Len(a.v) - 1)) /\
-                   (\A k \in 1..Len(a.v) : a.v[k].t = b.v[1].t) /\ ~IsList(b.v[1]) /\ ~IsStr(b.v[1])
+    [] v = ":=" -> \/ IsList(a) /\ Len(a.v) >= 1 /\ IsList(b) /\ Len(b.v) >= 2 /\ AllInts(Tail(b.v)) /\
+                      (\A k \in 2..Len(b.v) : b.v[k].v \in 0..(Len(a.v) - 1)) /\
+                      (\A k \in 1..Len(a.v) : a.v[k].t = b.v[1].t) /\ ~IsList(b.v[1]) /\ ~IsStr(b.v[1])
+                   \* a string amended with a CHARACTER at positions inside the string
+                   \/ IsStr(a) /\ Len(a.v) >= 1 /\ IsList(b) /\ Len(b.v) >= 2 /\ AllInts(Tail(b.v)) /\ IsChar(b.v[1]) /\
+                      (\A k \in 2..Len(b.v) : b.v[k].v \in 0..(Len(a.v) - 1))
     [] v = ":-" -> IsList(a) /\ IsList(b) /\ Len(b.v) \in 2..4 /\ AllInts(Tail(b.v)) /\ ~IsList(b.v[1]) /\ ~IsDict(b.v[1])
                    /\ PathOk(a, [k \in 1..(Len(b.v) - 1) |-> b.v[k + 1].v])
     [] OTHER -> FALSE
@@ -274,7 +277,8 @@ Dyad(v, a, b) ==
     [] v = ":_" -> LET segs == CutAt(Elems(b), IntsOf(a), 0) IN L([k \in 1..Len(segs) |-> Like(b, segs[k])])
     [] v = ":^" -> Build([k \in 1..Len(IntsOf(a)) |-> IF IntsOf(a)[k] = -1 THEN Len(b.v) \div 2 ELSE IntsOf(a)[k]],
                          IF IsList(b) THEN b.v ELSE <<b>>, 0)
-    [] v = ":=" -> L(Amend(a.v, b.v[1], [k \in 1..(Len(b.v) - 1) |-> b.v[k + 1].v]))
+    [] v = ":=" -> IF IsStr(a) THEN S(Amend(a.v, b.v[1].v, [k \in 1..(Len(b.v) - 1) |-> b.v[k + 1].v]))
+                   ELSE L(Amend(a.v, b.v[1], [k \in 1..(Len(b.v) - 1) |-> b.v[k + 1].v]))
     [] v = ":-" -> AmendDepth(a, b.v[1], [k \in 1..(Len(b.v) - 1) |-> b.v[k + 1].v])
     [] OTHER -> Err("unknown dyad")
 =============================================================================
